@@ -60,7 +60,14 @@ func (ftm *MemFileTransferMgr) Add(ft *FileTransfer) {
 	ftm.mu.Lock()
 	defer ftm.mu.Unlock()
 
-	_, _ = rand.Read(ft.RefNum[:])
+	// Draw again on a reference number that is waiting to be used: the new transfer would take its place.
+	for {
+		_, _ = rand.Read(ft.RefNum[:])
+
+		if _, taken := ftm.fileTransfers[ft.RefNum]; !taken {
+			break
+		}
+	}
 
 	ftm.fileTransfers[ft.RefNum] = ft
 
